@@ -105,6 +105,9 @@ MUTANTS = {
     "searchw": ("if ((config->search_area_width > 480) || (config->search_area_width == 0)) {",
                 "if ((config->search_area_width > 480)) {",
                 "verify_settings: search_area_width == 0 no longer rejected"),
+    # C13 detection demonstration: one default no longer written
+    "noqpinit": ("    config_ptr->qp = 50;\n", "    /* qp left unwritten */\n",
+                 "svt_svt_enc_init_parameter no longer writes qp"),
     # the planned repair of C13 (not a defect: used to show that C13 passes once the structure is zeroed first)
     "c13fix": ("    config_ptr->frame_rate = 30 << 16;\n    config_ptr->frame_rate_numerator = 0;",
                "    memset(config_ptr, 0, sizeof(*config_ptr));\n    config_ptr->frame_rate = 30 << 16;\n"
